@@ -691,10 +691,11 @@ class C17(Prop):
 
                 known = classify_swap_assert(e, case, mpo, "swap")
                 sig, in_lib = lib_exception_sig(e)
-                if not known and in_lib and sig.endswith("check_swap_consistency") and case["swap_algo"] == "qr":
+                if not known and in_lib and sig.endswith("check_swap_consistency") and qr:
                     # C01's known finding F15: the library's own self-check (assert_allclose rtol 1e-8 / rows above 1e-10 of the
-                    # largest) is stricter than the QR cuts; nothing was modified.  As in C01: repeat with the self-check
-                    # disabled; if the operator is right the refusal is F15 (counted as rejected), otherwise it is a failure.
+                    # largest) is stricter than the QR cuts (QR swap, or graph swap of a QR-built operator whose bond operators
+                    # carry rounding-level members); nothing was modified.  As in C01: repeat with the self-check disabled; if the
+                    # operator is right the refusal is F15 (counted as rejected), otherwise it is a failure.
                     from renormalizer.mps import symbolic_mpo as _sm
 
                     saved = _sm.check_swap_consistency
@@ -706,7 +707,7 @@ class C17(Prop):
                         _sm.check_swap_consistency = saved
                     if r.check_close("swap.refused_and_wrong", d, op_forward(H0, transform(dims, order, False)), tol,
                                      f"self-check refused swap {k} at {pos} and the operator is wrong without it"):
-                        r.rejected = "check_swap_consistency refused a correct QR swap (C01/F15)"
+                        r.rejected = "check_swap_consistency refused a correct swap with QR involved (C01/F15)"
                     return
                 if known:
                     r.fail(known, f"try_swap_site died at swap {k} (position {pos}) of {case['swaps']} (build {case['algo']}, swap "
